@@ -24,7 +24,7 @@ VERIF = os.path.dirname(os.path.dirname(os.path.abspath(__file__)))
 REPO = os.environ.get("VERIF_REPO", "/repo")
 GOROOT = "/opt/veriftools/go1.26.8"
 GO = GOROOT + "/bin/go"
-BUILD = os.path.join(VERIF, ".build")
+BUILD = os.environ.get("VERIF_BUILD") or os.path.join(VERIF, ".build")  # VERIF_BUILD: private build dir for runs concurrent with another run of the same check
 NCPU = int(os.environ.get("VERIF_NCPU", str(os.cpu_count() or 4)))
 
 sys.path.insert(0, os.path.dirname(os.path.abspath(__file__)))
@@ -312,7 +312,10 @@ def run_shards(cid, cfg, bins, tier, seed, tag, replay=None, extra_env=None):
             except Exception as e:  # noqa
                 failures.append("%s shard %d: unreadable report: %s" % (pkg, sh, e))
         else:
-            tail = open(rep + ".log").read()[-3000:]
+            try:
+                tail = open(rep + ".log").read()[-3000:]
+            except OSError:
+                tail = "(log file missing: the build directory was removed by a concurrent run of the same check)"
             failures.append("%s shard %d: no report (exit %s)\n%s" % (pkg, sh, p.returncode, tail))
     return reports, failures
 
